@@ -189,6 +189,25 @@ pub fn build_sys_uneven(net: &Net, counts: &[u16], bits: &[ParamBit]) -> Result<
 /// A graph over the same symbolic encoding as `build_sys(net, k, ..)` whose unit set is restricted
 /// to a subset of the colours (`with_custom_context` with a unit BDD over parameter variables
 /// only: one literal or a disjunction of two). `None` if the network has no parameter variables.
+/// Like `build_sys`, but the unit set admits only the states in which one (random) network variable
+/// has one (random) value. Transitions of the graph may lead out of such a unit set, so raw results
+/// need not stay inside it; only properties that do not depend on that may be checked on it.
+pub fn build_sys_state_restricted(net: &Net, k: u16, bits: &[ParamBit], rng: &mut Rng) -> Result<(Sys, String), String> {
+    use biodivine_lib_param_bn::symbolic_async_graph::SymbolicContext;
+    let bn = parse_bn(net)?;
+    let map: HashMap<_, _> = bn.variables().map(|v| (v, k)).collect();
+    let context = SymbolicContext::with_extra_state_variables(&bn, &map)?;
+    let v = *rng.pick(&bn.variables().collect::<Vec<_>>());
+    let val = rng.coin();
+    let unit = context.bdd_variable_set().mk_literal(context.get_state_variable(v), val);
+    let what = format!("{}={}", bn.get_variable_name(v), val);
+    let graph = SymbolicAsyncGraph::with_custom_context(&bn, context, unit)?;
+    let book = book_for(net, &graph, bits)?;
+    let canon_graph = SymbolicAsyncGraph::new(&bn)?;
+    let canon_book = book_for(net, &canon_graph, bits)?;
+    Ok((Sys { net: net.clone(), bn, graph, book, k, canon_graph, canon_book }, what))
+}
+
 pub fn build_sys_colour_restricted(net: &Net, k: u16, bits: &[ParamBit], rng: &mut Rng) -> Result<Option<(Sys, String)>, String> {
     use biodivine_lib_param_bn::symbolic_async_graph::SymbolicContext;
     let bn = parse_bn(net)?;
